@@ -119,6 +119,11 @@ func c18Run(c *Ctx, idx int) {
 	for k := 0; k < 6; k++ {
 		e2 := gen.Pick(r, c18Panel)
 		piped := "(" + e1 + ") | " + e2
+		if k%2 == 1 && node.Kind != ref.NLet {
+			// the pipe binds loosest: no parentheses needed (and the bare
+			// spelling is the one evaluators special-case)
+			piped = e1 + " | " + e2
+		}
 		want := c.LibSearch(piped, goDoc)
 		got := c.LibSearch(e2, r1)
 		loose := Enumerates(e1) || Enumerates(e2)
@@ -181,7 +186,9 @@ func c18Nulls(c *Ctx, idx int) {
 	doc.Set("xs", xs)
 	doc.Set("o", gen.Object(r, 1))
 	goDoc := ref.ToGo(doc, ref.JSONNumber)
-	e1s := []string{"xs[?a != 'x']", "xs[?!a]", "xs[?a == `null`]", "xs[?@ == `null`]", "xs[?!@]", "xs[?b || !a]", "xs[?`true`]", "xs[*]", "xs[]", "xs[1:]", "xs[::-1]", "o.*", "xs[?a != 'x'].a", "xs", "xs[?a]", "[xs[0], xs[1]]", "xs[?@ != `1`]"}
+	e1s := []string{"xs[?a != 'x']", "xs[?!a]", "xs[?a == `null`]", "xs[?@ == `null`]", "xs[?!@]", "xs[?b || !a]", "xs[?`true`]", "xs[*]", "xs[]", "xs[1:]", "xs[::-1]", "o.*", "xs[?a != 'x'].a", "xs", "xs[?a]", "[xs[0], xs[1]]", "xs[?@ != `1`]",
+		// arrays built by functions keep their nulls (projections drop them)
+		"map(&a, xs)", "map(&@, xs)", "map(&b, xs)", "to_array(xs)", "not_null(xs)", "reverse(xs)", "[xs[0].a, xs[1].a, xs[1].b]", "sort_by(xs, &type(@))", "zip(xs, xs)[*][0]", "zip(xs, xs)", "map(&[a, b], xs)", "map(&a, xs[?@])", "let $v = xs in map(&a, $v)", "xs[*].a | map(&@, @)", "map(&not_null(a, b), xs)", "not_null(map(&a, xs))"}
 	e2s := []string{"[0]", "[-1]", "[1]", "[0:2]", "[*]", "[]", "length(@)", "[?@ == `null`]", "[0].a", "@[0]", "type([0])", "[0] == `null`", "not_null([0], 'N')", "reverse(@)[0]"}
 	e1 := gen.Pick(r, e1s)
 	l1 := c.LibSearch(e1, goDoc)
